@@ -148,18 +148,22 @@ template <typename T> static void ctr_run(const uint8_t *key, size_t klen, const
     ctr.clear();
 }
 
-static uint8_t CIN[4096], COUT[4096], CEXP[4096];
+static uint8_t CIN[3200000], COUT[3200000], CEXP[3200000];
 static void case_ctr(uint64_t idx, vh_rng *r)
 {
     int ci_i = (int)(idx % 5); const ClassInfo &ci = CLS[ci_i];
-    uint8_t key[48], iv[16]; unsigned total = vh_below(r, 3) ? vh_below(r, 300) : vh_below(r, 3000), cuts[64], ncuts = 0, left = total; bool okret = true;
+    uint8_t key[48], iv[16]; unsigned total = vh_below(r, 3) ? vh_below(r, 300) : vh_below(r, 3000), cuts[64], ncuts = 0, left; bool okret = true;
+    int bigcall = (idx % 97 == 5);
+    if (bigcall) { total = 1048576 + vh_below(r, 2100000); VH_COUNT("ctr_single_calls_of_1MiB_or_more", 1); }
+    left = total;
     int inplace = (int)vh_below(r, 2); Skinny128CTR_t c; char k_[200];
-    vh_rand_bytes(r, key, 48); vh_rand_bytes(r, CIN, total);
+    vh_rand_bytes(r, key, 48); vh_rand_bytes(r, CIN, total > 8192 ? 8192 : total); if (total > 8192) memset(CIN + 8192, 0x3C, total - 8192);
     switch (vh_below(r, 5)) {
     case 0: memset(iv, 0xFF, 16); iv[15] = (uint8_t)(0xFF - vh_below(r, 6)); break;
     case 1: memset(iv, 0, 16); { unsigned k = 1 + vh_below(r, 16); memset(iv + 16 - k, 0xFF, k); iv[15] = (uint8_t)(0xFF - vh_below(r, 4)); } break;
     default: vh_rand_bytes(r, iv, 16); break;
     }
+    if (bigcall) { unsigned pre = vh_below(r, 40); cuts[ncuts++] = pre; left -= pre; cuts[ncuts++] = left - 7; left = 7; }
     while (left && ncuts < 63) { unsigned n = 1 + vh_below(r, left < 90 ? left : 90); if (!vh_below(r, 5)) n = 0; cuts[ncuts++] = n; left -= n; }
     cuts[ncuts++] = left;
     snprintf(k_, sizeof(k_), "C19:CTR<%s>", ci.name); vh_set_crash_key(k_);
